@@ -127,6 +127,7 @@ class C13(Prop):
     # K2: the slice of the (stage-2) engine model's state / records this property reads
     k2_mask = {('ind', '*'), ('rec', '*'), ('node', 'queues'), ('node', 'pop'), ('node', 'next_type'), ('node', 'next_date'), ('node', 'next_inds')}
     k2_frames = 40
+    k2_invs2 = {'ren'}         # the stage-2 T2 invariants (Inv/AllRun2.invs2_b) this property answers for on real snapshots
     regions = {'quick': [('renege', 260), ('renege_preempt', 60), ('renege_jockey', 60), ('renege_schedpre', 40), ('core', 120), ('block', 40), ('all', 80), ('sched', 30), ('dyn', 30)]}
     rule = ('one case = one observed run; the event list has every patience sample (logged in the distribution object), every renege with '
             'what happened in its frame, the waiting customers and their reneging dates after every event, and every baulking decision '
